@@ -94,6 +94,7 @@ fn c01_alphabet() -> Vec<Cmd> {
         Sched { node: 0, kind: SKind::Once, when: When::Rel(2), tag: 2, val: 2, slot: 0 },
         StepUntil(When::Rel(1)),
         StepUntil(When::Rel(3)),
+        StepUntil(When::Rel(2)),
         Sched { node: 1, kind: SKind::Once, when: When::Abs(3), tag: 1, val: 3, slot: 0 },
         Sched { node: 0, kind: SKind::Keyed, when: When::Rel(2), tag: 3, val: 4, slot: 0 },
         Sched { node: 1, kind: SKind::Periodic(2), when: When::Rel(1), tag: 1, val: 5, slot: 0 },
@@ -126,7 +127,7 @@ fn c01_concurrent_spec() -> Arc<BenchSpec> {
 
 pub fn c01(tier: &str) -> Vec<Family> {
     let spec = c01_spec();
-    let depth = if tier == "quick" { 3 } else { 4 };
+    let depth = if tier == "quick" { 4 } else { 5 };
     let alpha = c01_alphabet();
     let scenarios: Vec<Scenario> = seqs(&alpha, depth)
         .into_iter()
@@ -136,8 +137,8 @@ pub fn c01(tier: &str) -> Vec<Family> {
     let mut fams = vec![Family::new("driver_sequences", TAGS_TIME, scenarios)];
     // Depth-4/5 sequences over a reduced alphabet (the eight commands that
     // create and consume pending actions).
-    let alpha2: Vec<Cmd> = [0usize, 1, 2, 4, 6, 7, 9, 13].iter().map(|i| alpha[*i].clone()).collect();
-    let d2 = if tier == "quick" { 4 } else { 5 };
+    let alpha2: Vec<Cmd> = [0usize, 1, 5, 6, 7, 8, 10, 14].iter().map(|i| alpha[*i].clone()).collect();
+    let d2 = if tier == "quick" { 5 } else { 6 };
     let sc2: Vec<Scenario> = seqs(&alpha2, d2)
         .into_iter()
         .filter(|s| s.len() == d2)
@@ -267,6 +268,31 @@ pub fn c02(tier: &str) -> Vec<Family> {
             let s = with_caps(spec.clone(), &caps);
             sc.push(scn(format!("{}/cap{}/1ev", name, c), &s, vec![pe(0, 1, 1)]));
             sc.push(scn(format!("{}/cap{}/2ev", name, c), &s, vec![pe(0, 1, 1), pe(0, 1, 2)]));
+        }
+    }
+    // Broadcast whose delivery to B is suspended on a full mailbox while a
+    // third party (E) competes for the freed slot; then the triangle.
+    for capb in [1usize, 2] {
+        let a = NodeSpec::new("A", 2)
+            .script(1, vec![sendp(0, 2, 10), sendp(1, 3, 20)])
+            .script(5, vec![sendp(0, 2, 1), sendp(0, 2, 2), sendp(1, 3, 20)])
+            .out(vec![to(1), to(3)])
+            .out(vec![to(2)]);
+        let b = NodeSpec::new("B", capb);
+        let c = NodeSpec::new("C", 1).script(3, vec![sendp(0, 2, 30)]).out(vec![to(1)]);
+        let d = NodeSpec::new("D", 2);
+        let e = NodeSpec::new("E", 1).script(1, vec![sendp(0, 2, 100), sendp(0, 2, 101)]).out(vec![to(1)]);
+        let spec = Arc::new(BenchSpec::new(vec![a, b, c, d, e]));
+        for tag in [1u16, 5] {
+            sc.push(scn(
+                format!("bcast_triangle/capB{}/tag{}", capb, tag),
+                &spec,
+                vec![
+                    Cmd::Sched { node: 4, kind: SKind::Once, when: When::Rel(1), tag: 1, val: 0, slot: 0 },
+                    Cmd::Sched { node: 0, kind: SKind::Once, when: When::Rel(1), tag, val: 0, slot: 0 },
+                    Cmd::Step,
+                ],
+            ));
         }
     }
     let tp = Arc::new(two_producers());
@@ -474,6 +500,48 @@ pub fn c04(tier: &str) -> Vec<Family> {
     ));
     let t = Arc::new(triangle());
     sc.push(scn("triangle", &t, vec![pe(0, 1, 1), pe(0, 1, 2)]));
+    // Fan-in of blocked senders onto saturated mailboxes and repeated
+    // multi-recipient broadcasts into full mailboxes.
+    for c in [1usize, 2] {
+        for vol in [2 * c + 1, 2 * c + 2] {
+            let s = all_kinds(c, vol);
+            sc.push(scn(format!("all_kinds/cap{}/vol{}", c, vol), &s, vec![pe(0, 1, 0), pe(0, 1, 1)]));
+        }
+        for vol in 2..=3usize {
+            let s = contended(c, vol);
+            sc.push(scn(
+                format!("contended/cap{}/vol{}", c, vol),
+                &s,
+                vec![
+                    Cmd::Sched { node: 0, kind: SKind::Once, when: When::Rel(1), tag: 1, val: 0, slot: 0 },
+                    Cmd::Sched { node: 1, kind: SKind::Once, when: When::Rel(1), tag: 1, val: 0, slot: 0 },
+                    Cmd::Step,
+                ],
+            ));
+        }
+    }
+    // Three producers blocked at once on one consumer of capacity 2.
+    {
+        let mk = |n: &str, base: i64| {
+            NodeSpec::new(n, 1)
+                .script(1, vec![sendp(0, 2, base), sendp(0, 2, base + 1), sendp(0, 2, base + 2)])
+                .out(vec![to(3)])
+        };
+        let k = NodeSpec::new("K", 2).script(2, vec![send(0, 9)]).out(vec![Conn::Buf { sink: 0, mode: Mode::Plain }]);
+        let mut sp = BenchSpec::new(vec![mk("P", 0), mk("Q", 100), mk("R", 200), k]);
+        sp.bufs = vec![32];
+        let sp = Arc::new(sp);
+        sc.push(scn(
+            "fan_in3/cap2",
+            &sp,
+            vec![
+                Cmd::Sched { node: 0, kind: SKind::Once, when: When::Rel(1), tag: 1, val: 0, slot: 0 },
+                Cmd::Sched { node: 1, kind: SKind::Once, when: When::Rel(1), tag: 1, val: 0, slot: 0 },
+                Cmd::Sched { node: 2, kind: SKind::Once, when: When::Rel(1), tag: 1, val: 0, slot: 0 },
+                Cmd::Step,
+            ],
+        ));
+    }
     vec![Family::new("deterministic_benches", TAGS_QUIESCENCE, sc).cap(cap).invariant().hang_violation()]
 }
 
@@ -828,12 +896,56 @@ pub fn c09(tier: &str) -> Vec<Family> {
         cmds.push(StepUntil(When::Abs(4)));
         sc.push(scn(format!("seq#{}", i), &spec, cmds));
     }
-    vec![Family::new(
-        "cancellation_sequences",
-        &["cancel_ignored", "sched_missed", "sched_dup", "sched_wrong_time"],
-        sc,
-    )
-    .cap(cap)]
+    // A cancelled keyed action at every position of a same-time, same-origin
+    // batch of four (model inputs and source actions, one-shot and periodic).
+    let mut sc2 = vec![];
+    for pos in 0..4usize {
+        for (vi, keyed) in [
+            Sched { node: 0, kind: SKind::Keyed, when: When::Abs(2), tag: 1, val: 50, slot: 0 },
+            Sched { node: 0, kind: SKind::KeyedPeriodic(1), when: When::Abs(2), tag: 1, val: 51, slot: 0 },
+            SchedSrc { src: 0, kind: SKind::Keyed, when: When::Abs(2), tag: 1, val: 52, slot: 0 },
+            SchedSrc { src: 0, kind: SKind::KeyedPeriodic(1), when: When::Abs(2), tag: 1, val: 53, slot: 0 },
+        ]
+        .into_iter()
+        .enumerate()
+        {
+            for cancel_when in 0..2 {
+                let mut cmds = vec![];
+                for j in 0..4usize {
+                    if j == pos {
+                        cmds.push(keyed.clone());
+                    } else if j % 2 == 0 {
+                        cmds.push(Sched { node: 0, kind: SKind::Once, when: When::Abs(2), tag: 1, val: j as i64, slot: 9 });
+                    } else {
+                        cmds.push(SchedSrc { src: 0, kind: SKind::Periodic(1), when: When::Abs(2), tag: 1, val: j as i64, slot: 9 });
+                    }
+                }
+                if cancel_when == 0 {
+                    cmds.push(Cancel { slot: 0 });
+                    cmds.push(StepUntil(When::Abs(4)));
+                } else {
+                    cmds.push(Step);
+                    cmds.push(Cancel { slot: 0 });
+                    cmds.push(StepUntil(When::Abs(4)));
+                }
+                sc2.push(scn(format!("batch/pos{}/kind{}/cancel{}", pos, vi, cancel_when), &spec, cmds));
+            }
+        }
+    }
+    vec![
+        Family::new(
+            "cancellation_sequences",
+            &["cancel_ignored", "sched_missed", "sched_dup", "sched_wrong_time"],
+            sc,
+        )
+        .cap(cap),
+        Family::new(
+            "batch_positions",
+            &["cancel_ignored", "sched_missed", "sched_dup", "sched_wrong_time"],
+            sc2,
+        )
+        .cap(cap),
+    ]
 }
 
 // ---------------------------------------------------------------------------
